@@ -69,7 +69,7 @@ package req
 //@   ensures name == protocol.OptionFailNoPeers ==> (isnil(result) <==> is_bool(value))
 //@   ensures name == protocol.OptionFailNoPeers && !isnil(result) ==> result == protocol.ErrBadValue
 //@   ensures name == protocol.OptionFailNoPeers && isnil(result) ==> c.failNoPeers == bool_of(value)
-//@   ensures !isnil(result) ==> unchanged(c.bestEffort, c.failNoPeers, c.receiveExpire, c.resendTime, c.sendExpire)
+//@   ensures !isnil(result) && (name == protocol.OptionRetryTime || name == protocol.OptionRecvDeadline || name == protocol.OptionSendDeadline || name == protocol.OptionBestEffort || name == protocol.OptionFailNoPeers) ==> unchanged(c.bestEffort, c.failNoPeers, c.receiveExpire, c.resendTime, c.sendExpire)
 //@
 //@ func (*context).GetOption
 //@   ensures option != protocol.OptionRetryTime && option != protocol.OptionRecvDeadline && option != protocol.OptionSendDeadline && option != protocol.OptionBestEffort && option != protocol.OptionFailNoPeers ==> result1 == protocol.ErrBadOption && isnil(result0)
